@@ -207,7 +207,11 @@ func TestVerifC11Lines(t *testing.T) {
 				fmt.Fprintf(&sb, `{"ip":"fe80::%x:%x","mac":"06:66:66:66:66:%02x","vendor":"v6 neighbour"}`+"\n", uint16(b[0])<<8|uint16(b[1]), uint16(b[2])<<8|uint16(b[3]), k&0xff)
 				v6lines++
 			}
-			switch rng.Intn(6) {
+			switch rng.Intn(7) {
+			case 5:
+				// unknown extra fields whose names differ from the documented keys in letter case only: they are
+				// other fields (JSON keys are case-sensitive) and do not override ip / mac, wherever they stand
+				fmt.Fprintf(&sb, `{"IP":"10.255.255.1","ip":"%s","Mac":"02:ba:d0:ba:d0:01","mac":"%s","MAC":"02:ba:d0:ba:d0:02","Ip":"10.255.255.2","vendor":"V"}`+"\n", ipS, macS)
 			case 0:
 				fmt.Fprintf(&sb, `{"ip":"%s","mac":"%s","vendor":"Acme \"Inc\"\n","seen":%d,"extra":{"a":[1,2,{"b":null}]}}`+"\n", ipS, macS, k)
 			case 1:
